@@ -119,6 +119,9 @@ type sendPingOpts struct { //nolint:maligned
 	pingData []byte
 	// Define this message is a response or follow up.
 	followUp bool
+	// Send a message that is destined to all routers to this peer only.
+	// Only valid in combination with the router address as dst.
+	onlyToPeer netip.Addr
 }
 
 func (opts sendPingOpts) validate() error {
@@ -213,6 +216,14 @@ func (r *Router) sendPingMsg(opts sendPingOpts) error {
 			return fmt.Errorf("sign frame: %w", err)
 		}
 		f.SetTTL(32)
+	}
+
+	// Send frame to a single peer only, if requested.
+	if f.DstIP() == m.RouterAddress && opts.onlyToPeer.IsValid() {
+		if err := r.instance.Switch().ForwardByPeer(f, opts.onlyToPeer); err != nil {
+			return fmt.Errorf("send ping frame to peer: %w", err)
+		}
+		return nil
 	}
 
 	// Send frame on all links.
